@@ -320,6 +320,30 @@ func init() {
 					})
 				}
 				return one(b.GetUplinkChannel) + " " + one(b.GetDownlinkChannel), nil
+			case "chanmac":
+				i, e1 := ai(0)
+				if e1 != nil {
+					perr = e1
+					return "", nil
+				}
+				c, err := b.GetUplinkChannel(i)
+				if err != nil {
+					return "", err
+				}
+				hd := fmt.Sprintf("%d:%d:%d", c.Frequency, c.MinDR, c.MaxDR)
+				if i < 0 || i > 255 || c.MinDR < 0 || c.MinDR > 255 || c.MaxDR < 0 || c.MaxDR > 255 {
+					return hd + " na", nil
+				}
+				req := lw.NewChannelReqPayload{ChIndex: uint8(i), Freq: c.Frequency, MinDR: uint8(c.MinDR), MaxDR: uint8(c.MaxDR)}
+				bin, err := req.MarshalBinary()
+				if err != nil {
+					return hd + " enc=0", nil
+				}
+				var got lw.NewChannelReqPayload
+				if err := got.UnmarshalBinary(bin); err != nil || got != req {
+					return hd + " enc=1 rt=0", nil
+				}
+				return hd + " enc=1 rt=1", nil
 			case "idx":
 				f, e1 := au(0)
 				d, e2 := ai(1)
